@@ -172,7 +172,7 @@ def _definitions(r, tag=""):
         if k == 0:
             out.append(GATEDEF.format(n="G" + n, a=r.choice("123")).rstrip("\n"))
         elif k == 1:
-            out.append(f"DECLARE m{n} {r.choice(['BIT', 'REAL', 'INTEGER[2]'])}")
+            out.append(f"DECLARE m{n} {r.choice(['BIT', 'REAL', 'INTEGER[2]', 'BIT[2]', 'BIT[4]', 'INTEGER[3]', 'REAL[2]'])}")
         elif k == 2:
             out.append(f"DEFWAVEFORM w{n}:\n    {r.choice('123')}, 2")
         elif k == 3:
@@ -235,6 +235,8 @@ def gen_redefinitions(r):
             out.append(f"DECLARE m{n} {r.choice(['BIT', 'REAL'])}")
         else:
             out.append(r.choice(["X 0", "Y 1"]))
+    for _ in range(r.randrange(0, 5)):
+        out.insert(r.randrange(len(out) + 1), f"PRAGMA EXTERN e{r.choice('ABC')} \"{r.choice(['INTEGER', 'REAL'])} (x : {r.choice(['INTEGER', 'BIT'])})\"")
     return "\n".join(out) + "\n"
 
 
